@@ -11,6 +11,7 @@ import Compress.Drv.Prefix
 import Compress.Drv.Flate
 import Compress.Drv.Window
 import Compress.Drv.BitIO
+import Compress.Drv.Bzip2
 
 open Compress.Util Compress.Drv
 
@@ -28,6 +29,14 @@ def processLine (line : String) : String :=
       | "xw" => handleXw kv
       | "fl" => handleFl kv
       | "win" => handleWin kv
+      | "bz" => handleBz kv
+      | "rle1e" => handleRle1e kv
+      | "rle1d" => handleRle1d kv
+      | "mtfe" => handleMtfe kv
+      | "mtfd" => handleMtfd kv
+      | "bwtd" => handleBwtd kv
+      | "bwte" => handleBwte kv
+      | "bzcrc" => handleBzcrc kv
       | "br" => handleBr kv
       | "bw" => handleBw kv
       | "gp" => handleGp kv
